@@ -379,13 +379,17 @@ func (w *World) intrinsic(t *Thread, f *Frame, fnv FuncV, args []Val, c *ssa.Cal
 		return nil, false
 	case "(*sync/atomic.Int32).Add", "(*sync/atomic.Int64).Add", "(*sync/atomic.Uint64).Add":
 		k := key(args[0].(Ptr))
-		old, _ := w.cells[k].(int64)
-		w.cells[k] = old + args[1].(int64)
+		var old Val = int64(0)
+		if c, ok := w.cells[k]; ok && c != nil {
+			old = c
+		}
+		nv := add(old, args[1]) // the addend may be symbolic
+		w.cells[k] = nv
 		if w.raceOn {
 			t.vc = t.vc.join(w.cellVC[k]).tick(t.id)
 			w.cellVC[k] = w.cellVC[k].join(t.vc)
 		}
-		return old + args[1].(int64), false
+		return nv, false
 	case "(*sync/atomic.Value).CompareAndSwap":
 		k := key(args[0].(Ptr))
 		cur, ok := w.cells[k]
